@@ -18,4 +18,32 @@ def entryReplacePanic (cfg : Cfg) (env : Env) (k kid : Nat) (w : World) : Res (B
       | .ok (x, t') => .panic "pred" (({ w1 with t := t' } : World).dropElemQuiet cfg x)
     | none => (dropKeyR cfg env kid w1).bind fun w2 => .ok (false, w2)
 
+/-- `raw_entry_mut().from_*(..)` then, if occupied, `replace_entry_with(|_, _| panic!())` (raw_entry.rs →
+    `RawTable::replace_bucket_with`): the element is out of the table when the closure runs and is dropped
+    by the unwinding. The same for `RawEntryMut::and_replace_entry_with`. -/
+def rawReplacePanic (cfg : Cfg) (env : Env) (mode : RawMode) (ph k : Nat) (w : World) : Res (Bool × World) :=
+  (rawLook cfg env mode ph k w).bind fun (r, w1) =>
+    match r with
+    | some idx =>
+      match removeAt cfg w1.t idx with
+      | .error f => .fault f
+      | .ok (x, t') => .panic "pred" (({ w1 with t := t' } : World).dropElemQuiet cfg x)
+    | none => .ok (false, w1)
+
+/-- `map.entry(K(k, kid)).or_insert_with(|| panic!())`: occupied — the closure is not called; vacant — the
+    closure unwinds, nothing was inserted, the `VacantEntry` (and the key it owns) is dropped. -/
+def entryOrInsertWithPanic (cfg : Cfg) (env : Env) (k kid : Nat) (w : World) : Res (Bool × World) :=
+  (entryLook cfg env k kid w).bind fun ((_, r), w1) =>
+    match r with
+    | some _ => .ok (true, w1)
+    | none => .panic "pred" (w1.dropKeyQuiet cfg kid)
+
+/-- `map.entry(K(k, kid)).and_modify(|_| panic!())`: occupied — the closure unwinds with the table as it
+    was; vacant — the closure is not called and the unused entry (with its key) is dropped. -/
+def entryAndModifyPanic (cfg : Cfg) (env : Env) (k kid : Nat) (w : World) : Res (Bool × World) :=
+  (entryLook cfg env k kid w).bind fun ((_, r), w1) =>
+    match r with
+    | some _ => .panic "pred" w1
+    | none => (dropKeyR cfg env kid w1).bind fun w2 => .ok (false, w2)
+
 end Hb.Map
